@@ -7,10 +7,10 @@ package sm2_test
 
 import (
 	"bytes"
-	"math/big"
 	"encoding/hex"
 	"encoding/json"
 	"fmt"
+	"math/big"
 	"os"
 	"path/filepath"
 	"testing"
@@ -49,7 +49,7 @@ func TestVerif_C13_ZA(t *testing.T) {
 		d, _, _ := sm2gen.PrivKey(t, "d")
 		px, py, _ := sm2gen.Pub(d)
 		in := snap(id, px, py)
-		placed, recordChanged := recordLayout(t, "rec", id, px, py)
+		placed, recordChanged := recordLayoutRW(t, "rec", id, px, py) // the id buffer is overwritten and reused below
 		var za []byte
 		var err error
 		if p := vt.Catch(func() { za, err = sm2.ZA(placed[0], placed[1], placed[2]) }); p != nil {
@@ -259,7 +259,6 @@ func TestVerif_C13_OpenSSLVectors(t *testing.T) {
 		}
 	}
 }
-
 
 // Complete sweep of the id length (thorough: every length 0..8200; quick: every 16th and the neighbourhood of 8192).
 func TestVerif_C13_IdLengthSweep(t *testing.T) {
